@@ -14,7 +14,7 @@ import (
 func init() {
 	register(&Prop{
 		ID:          "C09",
-		Explanation: "Decides the wiring of the lifetime threshold: encryption.Validate reports ok only if expiration==0 or the signed timestamp t (time.Unix of the integer parsed from the MAC-covered timestamp part) satisfies t.After(time.Now().Add(-expiration)) and t.Before(time.Now().Add(5 minutes)) with exactly those operands; every caller passes Cookie.Expire as the expiration; the timestamp signed into session and ticket cookies is *CreatedAt of the session being saved and SignedValue writes now.Unix(); SessionStore.Save implementations stamp CreatedAt only when it is unset; refreshSession stamps CreatedAtNow() on the session before re-saving it; MakeCookieFromOptions derives Max-Age from its expiration argument, which for session/ticket cookies is Cookie.Expire (CSRF: Cookie.CSRFExpire, deletions: a negative constant); the server-side entry's TTL is Cookie.Expire passed unchanged through ticket.saveSession -> Store.Save -> redis Set. Added during the build: SessionStore.Save implementations stamp CreatedAt only when unset (R6); refreshSession resets the issue time only when the provider refreshed or reported ErrNotImplemented (R7); every cookie sent derives from the constructors that carry Max-Age (R8, shared with C18.R1).",
+		Explanation: "Decides the wiring of the lifetime threshold: encryption.Validate reports ok only if expiration==0 or the signed timestamp t (time.Unix of the integer parsed from the MAC-covered timestamp part) satisfies t.After(time.Now().Add(-expiration)) and t.Before(time.Now().Add(5 minutes)) with exactly those operands; every caller passes Cookie.Expire as the expiration; the timestamp signed into session and ticket cookies is *CreatedAt of the session being saved and SignedValue writes now.Unix(); SessionStore.Save implementations stamp CreatedAt only when it is unset; refreshSession stamps CreatedAtNow() on the session before re-saving it; MakeCookieFromOptions derives Max-Age from its expiration argument, which for session/ticket cookies is Cookie.Expire (CSRF: Cookie.CSRFExpire, deletions: a negative constant); the server-side entry's TTL is Cookie.Expire passed unchanged through ticket.saveSession -> Store.Save -> redis Set. Added during the build: SessionStore.Save implementations stamp CreatedAt only when unset (R6); refreshSession resets the issue time only when the provider refreshed or reported ErrNotImplemented (R7); every cookie sent derives from the constructors that carry Max-Age (R8, shared with C18.R1). Round 4: request-reachable code never writes a field of the shared options.Cookie (R9); every Provider.RefreshSession answers true only as its delegate's verdict, after the delegate answered true, or after its own token redemption returned no error, so refreshSession never re-stamps an unrefreshed session (R10).",
 		NotDecided:  "second-granularity/off-by-one semantics of time.After/Before and Unix truncation (values); behaviour of Redis TTLs.",
 		Run:         runC09,
 	})
@@ -43,7 +43,12 @@ func runC09(c *Ctx) {
 	r.Rule("R5-maxage-ttl", "Max-Age from the expiration argument; session/ticket cookies pass Cookie.Expire; store TTL is Cookie.Expire passed unchanged", 15)
 	r.Rule("R7-stamp-only-on-refresh", "refreshSession resets CreatedAt only when the provider refreshed (or reported ErrNotImplemented)", 1)
 	r.Rule("R8-cookies-carry-maxage", "every cookie sent derives from MakeCookieFromOptions/copyCookie, which carry Max-Age (shared with C18.R1)", 9)
+	r.Rule("R9-cookie-options-frozen", "request-reachable code never writes a field of the shared options.Cookie (lifetime, refresh period, secret, ...)", 1)
+	r.Rule("R10-refreshed-verdict", "a provider's RefreshSession answers true only as its delegate's verdict or after its own token redemption succeeded", 5)
 	r.Rule("R6-save-keeps-stamp", "SessionStore.Save implementations stamp CreatedAt only when unset", 2)
+
+	runC09R9(c, "R9-cookie-options-frozen")
+	runC09R10(c, "R10-refreshed-verdict")
 
 	rule := "R1-window"
 	validate := c.Fn(rule, "pkg/encryption.Validate")
@@ -428,52 +433,7 @@ func runC09(c *Ctx) {
 		}
 		visitCaller(mk, 4, false, 0)
 	}
-	// TTL chain
-	ttlLink := func(fnName string, match func(cc *ssa.CallCommon) bool, argIdx int, want func(v ssa.Value, fn *ssa.Function) bool, what string) {
-		fn := c.Fn(rule, fnName)
-		if fn == nil {
-			return
-		}
-		n := 0
-		for _, b := range fn.Blocks {
-			for _, in := range b.Instrs {
-				ci, ok := in.(ssa.CallInstruction)
-				if !ok || !match(ci.Common()) {
-					continue
-				}
-				n++
-				key := "ttl|" + fnKey(fn)
-				args := ci.Common().Args
-				if argIdx < len(args) && want(args[argIdx], fn) {
-					c.ok(rule, key, in, what)
-				} else {
-					c.bad(rule, key, in, "the stored session's lifetime is not passed on unchanged here ("+what+" expected)", nil, 0)
-				}
-			}
-		}
-		if n == 0 {
-			c.R.Unknown(rule, "ttl|"+fnName, c.P.Pos(fn.Pos()), "expected store call not found")
-		}
-	}
-	paramN := func(i int) func(ssa.Value, *ssa.Function) bool {
-		return func(v ssa.Value, fn *ssa.Function) bool { return i < len(fn.Params) && v == fn.Params[i] }
-	}
-	ttlLink("(*pkg/sessions/persistence.ticket).saveSession", func(cc *ssa.CallCommon) bool {
-		pa, ok := cc.Value.(*ssa.Parameter)
-		return ok && !cc.IsInvoke() && pa.Name() == "saver"
-	}, 2, func(v ssa.Value, _ *ssa.Function) bool { return isFieldLoadOf(v, expireF) }, "saver(id, ciphertext, Cookie.Expire)")
-	ttlLink("(*pkg/sessions/persistence.Manager).Save$1", func(cc *ssa.CallCommon) bool {
-		return cc.IsInvoke() && cc.Method.Name() == "Save"
-	}, 3, paramN(2), "Store.Save(ctx, key, val, exp)")
-	ttlLink("(*pkg/sessions/redis.SessionStore).Save", func(cc *ssa.CallCommon) bool {
-		return cc.IsInvoke() && cc.Method.Name() == "Set"
-	}, 3, paramN(4), "Client.Set(ctx, key, value, exp)")
-	for _, cl := range []string{"(*pkg/sessions/redis.client).Set", "(*pkg/sessions/redis.clusterClient).Set"} {
-		ttlLink(cl, func(cc *ssa.CallCommon) bool {
-			sc := cc.StaticCallee()
-			return sc != nil && sc.Name() == "Set" && sc.Pkg != nil && sc.Pkg.Pkg.Path() == "github.com/redis/go-redis/v9"
-		}, 4, paramN(4), "redis Set(ctx, key, value, expiration)")
-	}
+	runStoreTTLChain(c, rule)
 
 	// ---- R6 ---------------------------------------------------------------------------------
 	rule = "R6-save-keeps-stamp"
@@ -524,4 +484,213 @@ func runC09(c *Ctx) {
 		}
 	}
 	_ = constant.MakeBool
+}
+
+// runC09R9: the one options.Cookie struct built at start-up is shared, by pointer, between the proxy, both session
+// stores, the ticket and the CSRF helpers; all of them read Expire (and Refresh, Secret, ...) from it on every
+// request. A write to one of its fields in code reachable from ServeHTTP changes the configured lifetime for the
+// whole process. The rule enumerates every store through a *options.Cookie in request-reachable module code; a store
+// into a local value copy (an Alloc of the struct) is not one.
+func runC09R9(c *Ctx, rule string) {
+	cookieT := c.P.Named("pkg/apis/options.Cookie")
+	R := c.requestReachable(rule)
+	if cookieT == nil || R == nil {
+		if cookieT == nil {
+			c.R.Unknown(rule, "anchor:options.Cookie", "-", "type pkg/apis/options.Cookie not found")
+		}
+		return
+	}
+	isCookiePtr := func(t types.Type) bool {
+		pt, ok := t.Underlying().(*types.Pointer)
+		return ok && types.Identical(pt.Elem(), cookieT)
+	}
+	n, setup, bad := 0, 0, 0
+	for _, fn := range c.P.ModFns {
+		for _, b := range fn.Blocks {
+			for _, in := range b.Instrs {
+				st, ok := in.(*ssa.Store)
+				if !ok {
+					continue
+				}
+				var base ssa.Value
+				what := ""
+				if fa, ok := st.Addr.(*ssa.FieldAddr); ok && isCookiePtr(fa.X.Type()) {
+					base, what = fa.X, "field "+walk.FieldOf(fa.X.Type(), fa.Field).Name()
+				} else if isCookiePtr(st.Addr.Type()) {
+					base, what = st.Addr, "the whole struct"
+				} else {
+					continue
+				}
+				if !R[fn] {
+					setup++
+					continue
+				}
+				n++
+				if al, ok := base.(*ssa.Alloc); ok && !al.Heap {
+					continue // a local value copy that does not escape
+				}
+				if al, ok := base.(*ssa.Alloc); ok && al.Heap && !reachesShared(al) {
+					continue
+				}
+				bad++
+				c.R.Bad(rule, "shared-cookie-options-store|"+fnKey(fn), c.pos(in), "request-handling code writes "+what+" of an options.Cookie reached through a pointer: the struct is shared by the proxy, the session stores and the CSRF helpers, so the configured cookie lifetime / refresh period / secret changes for every later request", nil, nil)
+			}
+		}
+	}
+	if bad == 0 {
+		c.R.OK(rule, "shared-cookie-options-store|none", "-", sprintf("%d store(s) through *options.Cookie in request-reachable code, none into the shared struct (%d in option loading and validation, which run before serving)", n, setup))
+	}
+}
+
+// reachesShared: a heap Alloc of options.Cookie that was initialised from nothing but local data is a private copy.
+// Conservative: private only when every use is a field address, a load, or a store INTO it.
+func reachesShared(al *ssa.Alloc) bool {
+	if al.Referrers() == nil {
+		return false
+	}
+	for _, r := range *al.Referrers() {
+		switch x := r.(type) {
+		case *ssa.FieldAddr, *ssa.DebugRef:
+		case *ssa.UnOp:
+		case *ssa.Store:
+			if x.Val == ssa.Value(al) {
+				return true
+			}
+		default:
+			_ = x
+		}
+	}
+	return false
+}
+
+// runC09R10: refreshSession re-stamps and re-saves the session (new signature time, new store TTL) whenever the
+// provider answers refreshed == true. An implementation that answers true without new tokens having been obtained
+// extends the session's lifetime past cookie-expire on every request older than cookie-refresh. Every implementation
+// of Provider.RefreshSession is walked: a result that may be true is the delegate's own verdict (embedded
+// RefreshSession / oidcRefreshFunc), or is reached only after the delegate answered true, or — where there is no
+// delegate on the path — after a module call with an error result returned nil (the token redemption).
+func runC09R10(c *Ctx, rule string) {
+	m := c.Method(rule, "providers.Provider.RefreshSession")
+	if m == nil {
+		return
+	}
+	isDeleg := func(p *walk.Path, cl walk.Call) bool {
+		if sc := cl.C.StaticCallee(); sc != nil {
+			return sc.Name() == "RefreshSession" && c.P.InModule(sc)
+		}
+		return isDelegate(p, cl, nil, nil)
+	}
+	for _, impl := range c.P.Implementations(m) {
+		if !c.P.InModule(impl) || len(impl.Blocks) == 0 || impl.Synthetic != "" {
+			continue
+		}
+		impl := impl
+		key := "true-verdict|" + fnKey(impl)
+		n, bad := 0, false
+		c.WalkShallow(rule, impl, func(p *walk.Path) {
+			rv, ok := p.ReturnDV(0)
+			if !ok || bad {
+				return
+			}
+			if b, k := p.Truth(rv, p.End()); k && !b {
+				return
+			}
+			n++
+			if cl, ok := extractOfCall(p, rv, 0); ok && isDeleg(p, cl) {
+				return // the delegate's verdict, passed on
+			}
+			var delegs []walk.Call
+			redeemed := false
+			for _, cl := range p.Calls() {
+				if isDeleg(p, cl) {
+					delegs = append(delegs, cl)
+					continue
+				}
+				if sc := cl.C.StaticCallee(); sc != nil && c.P.InModule(sc) {
+					if ei := errResultIndex(sc.Signature); ei >= 0 {
+						idx := ei
+						if sc.Signature.Results().Len() == 1 {
+							idx = -1
+						}
+						if isNil, k := p.ResultNil(cl.DV(), idx, p.End()); k && isNil {
+							redeemed = true
+						}
+					}
+				}
+			}
+			if len(delegs) > 0 {
+				for _, d := range delegs {
+					if b, k := p.ResultTruth(d.DV(), 0, p.End()); k && b {
+						return
+					}
+				}
+				bad = true
+				c.bad(rule, key, p.Exit, prog.Name(impl)+" can answer refreshed=true although the implementation it delegates to did not answer true (no refresh token, nothing redeemed): refreshSession then re-stamps and re-saves the session, which extends its lifetime without any refresh", p, p.End())
+				return
+			}
+			if !redeemed {
+				bad = true
+				c.bad(rule, key, p.Exit, prog.Name(impl)+" can answer refreshed=true on a path where no token redemption succeeded: refreshSession then re-stamps and re-saves the session, which extends its lifetime without any refresh", p, p.End())
+			}
+		})
+		if !bad {
+			c.R.OK(rule, key, c.P.Pos(impl.Pos()), sprintf("%d possibly-true return(s): delegate's verdict, or after the delegate answered true / the redemption returned no error", n))
+		}
+	}
+}
+
+// runStoreTTLChain (C09.R5, also C10.R10): the server-side entry is kept exactly as long as the cookie that names it —
+// Cookie.Expire is handed unchanged through ticket.saveSession -> Store.Save -> redis Set. A shorter TTL makes a
+// presented, still valid ticket load nothing; a longer one keeps sessions past their lifetime.
+func runStoreTTLChain(c *Ctx, rule string) {
+	expireF := c.Field(rule, "pkg/apis/options.Cookie.Expire")
+	if expireF == nil {
+		return
+	}
+	ttlLink := func(fnName string, match func(cc *ssa.CallCommon) bool, argIdx int, want func(v ssa.Value, fn *ssa.Function) bool, what string) {
+		fn := c.Fn(rule, fnName)
+		if fn == nil {
+			return
+		}
+		n := 0
+		for _, b := range fn.Blocks {
+			for _, in := range b.Instrs {
+				ci, ok := in.(ssa.CallInstruction)
+				if !ok || !match(ci.Common()) {
+					continue
+				}
+				n++
+				key := "ttl|" + fnKey(fn)
+				args := ci.Common().Args
+				if argIdx < len(args) && want(args[argIdx], fn) {
+					c.ok(rule, key, in, what)
+				} else {
+					c.bad(rule, key, in, "the stored session's lifetime is not passed on unchanged here ("+what+" expected)", nil, 0)
+				}
+			}
+		}
+		if n == 0 {
+			c.R.Unknown(rule, "ttl|"+fnName, c.P.Pos(fn.Pos()), "expected store call not found")
+		}
+	}
+	paramN := func(i int) func(ssa.Value, *ssa.Function) bool {
+		return func(v ssa.Value, fn *ssa.Function) bool { return i < len(fn.Params) && v == fn.Params[i] }
+	}
+	ttlLink("(*pkg/sessions/persistence.ticket).saveSession", func(cc *ssa.CallCommon) bool {
+		pa, ok := cc.Value.(*ssa.Parameter)
+		return ok && !cc.IsInvoke() && pa.Name() == "saver"
+	}, 2, func(v ssa.Value, _ *ssa.Function) bool { return isFieldLoadOf(v, expireF) }, "saver(id, ciphertext, Cookie.Expire)")
+	ttlLink("(*pkg/sessions/persistence.Manager).Save$1", func(cc *ssa.CallCommon) bool {
+		return cc.IsInvoke() && cc.Method.Name() == "Save"
+	}, 3, paramN(2), "Store.Save(ctx, key, val, exp)")
+	ttlLink("(*pkg/sessions/redis.SessionStore).Save", func(cc *ssa.CallCommon) bool {
+		return cc.IsInvoke() && cc.Method.Name() == "Set"
+	}, 3, paramN(4), "Client.Set(ctx, key, value, exp)")
+	for _, cl := range []string{"(*pkg/sessions/redis.client).Set", "(*pkg/sessions/redis.clusterClient).Set"} {
+		ttlLink(cl, func(cc *ssa.CallCommon) bool {
+			sc := cc.StaticCallee()
+			return sc != nil && sc.Name() == "Set" && sc.Pkg != nil && sc.Pkg.Pkg.Path() == "github.com/redis/go-redis/v9"
+		}, 4, paramN(4), "redis Set(ctx, key, value, expiration)")
+	}
+
 }
